@@ -7,3 +7,7 @@ check("C02", "proof",
       "Contract on evaluate(return_grad=True): the returned gradient equals the symbolic derivative of the returned score along every simplex-tangent direction, on every differentiability region (TV sign patterns, MMD zero-distance masks explored by an entailment-driven fork engine), score identical with/without gradient, shape, exact zeros at clipped entries; all real inputs at each enumerated shape (P@S).",
       "Reals for floats; shapes enumerated; ot.emd2 duals by contract (envelope theorem); measure-zero region boundaries excluded as the property states.",
       "symbolic execution + symbolic differentiation of the returned score + normal-form prover; fork engine with z3 feasibility", "4 C02")
+check("C03", "proof",
+      "Four modular contracts: (1) VJP contract on every _compute_grads (linear, MLP, sparse MLP, categorical, Douglas, KernelRIM incl. the kernel-weighted penalty): result[j][idx] == -d/dtheta sum G*_infer(X), entry by entry, for all real X/theta/G at each shape and every ReLU pattern / cut ordering (P@S); (2) RIM._update_weights adds exactly d/dW reg*||W||^2; (3) mlcl.decorate_grads injects exactly the derivative of the pairwise constraint terms on the right rows for every batch permutation; (4) data-flow contract on the loop body of fit() of all 17 gradient estimators and of _path(): _infer -> gemini(return_grad) -> _compute_grads -> _update_weights on this batch, same weights list as the optimiser (P-inf, term-mode symbolic interpretation of the real AST through the real MRO).",
+      "softmax by contract stub; sklearn optimisers trusted to apply what they are given; chain-rule lemma L3 composes the VJP contracts with C02; shapes enumerated.",
+      "symbolic execution + symbolic differentiation + normal-form prover (VJP); term-mode AST interpretation for data-flow obligations", "4 C03")
